@@ -16,7 +16,7 @@ def run(tier, seed):
     from contracts import bitbuffer, layout
 
     t1 = bitbuffer.t1_specs(tier)
-    t1 += [s for s in layout.specs(tier) if s[2][0].startswith("bits") or s[2][7] == "exit"]
+    t1 += [s for s in layout.specs(tier) if s[1] == "make_step" and (s[2][0].startswith("bits") or s[2][7] == "exit")]
     rep.add_case_results(run_cases(t1), "T1")
     progs = programs_for(tier, seed, pred=has_bits, full=True)
     from t2.family import Program
